@@ -13,6 +13,8 @@ use std::io::{BufReader, Cursor, Write};
 use std::path::{Path, PathBuf};
 use std::process::Command;
 
+mod gcnosafe;
+
 const KINDS: [&str; 6] = ["lcov", "jacoco", "gcovtext", "gcovjson", "gcno", "gcda"];
 
 #[derive(Clone)]
@@ -391,6 +393,7 @@ pub fn run(rep: &mut Report) {
                 under RLIMIT_AS = 2 GiB and a wall-clock limit; non-trivial = the case differs from its corpus file; \
                 distinct = distinct bytes"
         .to_string();
+    gcnosafe::corpus(rep);
     let mut rng = Rng::new(rep.seed ^ 0xC14);
     let exhaustive = rep.thorough();
     let per_file = rep.budget(450, 1) as usize;
@@ -492,6 +495,7 @@ pub fn run(rep: &mut Report) {
     }
     rep.count_n("gcda.truncations_checked_against_record_prefixes", checked);
     alloc_findings(rep);
+    gcnosafe::run(rep);
 }
 
 /// the two recorded allocation findings: a number in the input is an allocation size
@@ -520,6 +524,9 @@ fn alloc_findings(rep: &mut Report) {
 }
 
 pub fn replay(rep: &mut Report, case: &serde_json::Value) {
+    if case["op"].as_str().unwrap_or("").starts_with("gcnosafe.") {
+        return gcnosafe::replay(rep, case);
+    }
     let kind: &'static str = match case["kind"].as_str().unwrap_or("") {
         "lcov" => "lcov",
         "jacoco" => "jacoco",
